@@ -198,7 +198,16 @@ class Engine:
                     h.meta['nonempty'] = b
                 return b
             if h.kind == 'smap':
-                raise EngineError('truthiness of symbolic map')
+                # non-empty <=> some key is present; like for sets only "empty => no key present" is assumed of the
+                # fresh flag (the other direction would need a witness); keyed on the presence array it was made for
+                cache = h.meta.get('nonempty')
+                if cache is not None and cache[0].eq(h.meta['present']):
+                    return cache[1]
+                b = z3.Bool(fresh_name('map_nonempty'))
+                kk = z3.Const('k__', h.meta['present'].domain())
+                st.assume(z3.Implies(z3.Not(b), z3.ForAll([kk], z3.Not(z3.Select(h.meta['present'], kk)))))
+                h.meta['nonempty'] = (h.meta['present'], b)
+                return b
             if h.kind == 'obj':
                 fi = self.find_method_of(h, '__len__')
                 if fi is not None:
@@ -328,6 +337,21 @@ class Engine:
         if dotted in STD_CONSTS:
             return STD_CONSTS[dotted]
         return Builtin(dotted)
+
+    def same_const_list(self, v, cls_qual, name, st):
+        """v is (a thawed copy of) the class constant cls_qual.name (a list of strings)"""
+        from .state import State
+        ci = self.repo.cls(cls_qual)
+        owner, _ = self.repo.find_class_attr(ci, name)
+        if owner is None:
+            return False
+        tmp = State()
+        want = list(tmp.obj(self.class_attr(owner, name, tmp)[0].val).items)
+        if isinstance(v, Ref) and st.obj(v).kind == 'list':
+            return list(st.obj(v).items) == want
+        if isinstance(v, tuple) and len(v) == 2 and isinstance(v[0], str) and v[0] == 'frozenlist':
+            return list(v[1]) == want
+        return False
 
     # ------------------------------------------------------------------ exception classes
     def exc_class_name(self, v):
